@@ -77,9 +77,13 @@ def check_row(r, name, key, row, where, rule="R4.1"):
 # --------------------------------------------------------------------------- scenarios for R4.3
 
 
-def gen_scenarios(ctx, tier):
-    """Yield (label, expr, symbols) — finite family of expression shapes covering every rule of the Rewriter."""
-    a, b, c = ctx.symbol("a"), ctx.symbol("b"), ctx.symbol("c")
+def gen_scenarios(ctx, tier, bits=None, reduced=False):
+    """Yield (label, expr) — finite family of expression shapes covering every rule of the Rewriter.
+
+    bits: None for untyped float symbols, 32/64 for numpy-typed symbols (constant folding then runs in the modelled dtype)."""
+    sfx = "" if bits is None else str(bits)
+    ft = AType("float", bits)
+    a, b, c = ctx.symbol("a" + sfx, ft), ctx.symbol("b" + sfx, ft), ctx.symbol("c" + sfx, ft)
     p, q = ctx.symbol("p", AType("boolean")), ctx.symbol("q", AType("boolean"))
     z = ctx.symbol("z", AType("complex"))
     a64, a32 = ctx.symbol("w", AType("float", 64)), ctx.symbol("n", AType("float", 32))
@@ -101,6 +105,24 @@ def gen_scenarios(ctx, tier):
             t1.append(M(k, (x, y)))
     for t in t1:
         yield "arith-1", t
+    if reduced:
+        for k in CMP:
+            for n1 in named + [0, 1, 2.5, -1]:
+                for n2 in named + [0, 1]:
+                    yield "cmp-const", M(k, (K(n1), K(n2)))
+            for s_ in [M("absolute", (a,)), M("square", (a,)), M("sqrt", (M("absolute", (a,)),)), M("negative", (M("absolute", (b,)),)), a]:
+                for rhs in [K(0), K(1), K(0.0), b] + [K(nm) for nm in named]:
+                    yield "cmp-signed", M(k, (s_, rhs))
+                    yield "cmp-signed", M(k, (rhs, s_))
+            yield "select", M("select", (M(k, (a, b)), a, b))
+            yield "select", M("select", (M(k, (a, K(0))), K(1), K(2)))
+        for v in [0, 1, -1, 2, 4.0, -1.5, 0.0, 0.25, 9.0, 0.1, 3]:
+            for u in UN + ["log", "log1p"]:
+                yield "const-unary", M(u, (K(v),))
+            for w in [0, 1, -1, 2, 3, 0.1, 0.0]:
+                for k in BIN:
+                    yield "const-binary", M(k, (K(v), K(w)))
+        return
     # nested unary (idempotent / involution rules) and sign-carrying compositions
     t2 = []
     for u in UN:
@@ -166,6 +188,31 @@ def gen_scenarios(ctx, tier):
               M("log", (a,)), M("log1p", (a,)),
               ]:
         yield "misc", t
+    # constants through every unary / binary rule (constant folding in the untyped float model)
+    cvals = [0, 1, -1, 2, 4.0, -1.5, 0.0, 0.25, 9.0, True, False]
+    for v in cvals:
+        for u in UN + ["log", "log1p", "log2", "log10", "conjugate"]:
+            if isinstance(v, bool) and u != "logical_not":
+                continue
+            yield "const-unary", M(u, (K(v),))
+        for w in cvals[:7]:
+            if isinstance(v, bool) or isinstance(w, bool):
+                continue
+            for k in BIN:
+                yield "const-binary", M(k, (K(v), K(w)))
+            for k in CMP:
+                yield "const-cmp", M(k, (K(v), K(w)))
+    for v in (True, False):
+        yield "const-logic", M("logical_not", (ctx.constant(v),))
+        for w in (True, False):
+            yield "const-logic", M("logical_and", (ctx.constant(v), ctx.constant(w)))
+            yield "const-logic", M("logical_or", (ctx.constant(v), ctx.constant(w)))
+        yield "const-select", M("select", (ctx.constant(v), a, b))
+    zc = ctx.constant(complex(1.0, 2.0), z)
+    for t in [M("conjugate", (zc,)), M("real", (zc,)), M("imag", (zc,)), M("conjugate", (ctx.constant(1.5, z),)), M("absolute", (K(-2.5),)),
+              M("item", (M("list", (a, b)), ctx.constant(0))), M("sign", (M("sign", (a,)),)), M("absolute", (M("absolute", (a,)),)),
+              M("positive", (M("positive", (a,)),)), M("logical_or", (M("logical_and", (M("lt", (a, b)), M("lt", (b, c)))), M("ge", (a, b))))]:
+        yield "misc2", t
     if tier == "thorough":
         # a second layer: every binary arithmetic of two signed terms compared with zero, and selects guarded by them
         for k in BIN[:4]:
@@ -184,7 +231,7 @@ def gen_scenarios(ctx, tier):
 
 
 VALS = {"float": [-2.0, -1.0, -0.5, 0.0, 0.5, 1.0, 2.0], "boolean": [False, True], "complex": [complex(1, 2), complex(-1, 0.5), complex(0, -1)],
-        "float64": [-1.5, -0.5, 0.0, 0.5, 2.5, 3.5], "float32": [-1.0, 0.0, 1.0, 2.0]}
+        "float64": [-1.5, -0.5, 0.0, 0.5, 2.5, 0.1, 1.0000000009313226], "float32": [-1.0, 0.0, 1.0, 2.0, 0.5, -2.5]}
 
 
 def symbols_of(e, acc=None):
@@ -429,7 +476,12 @@ def run(repo, tier):
     n_scen = n_rewritten = n_unsupported = n_checked_assign = 0
     unsupported = {}
     seen = set()
-    for label, e in gen_scenarios(ctx, tier):
+    def all_scenarios():
+        yield from gen_scenarios(ctx, tier)
+        for bits in (64, 32):
+            yield from gen_scenarios(ctx, tier, bits=bits, reduced=(tier == "quick"))
+
+    for label, e in all_scenarios():
         if id(e) in seen:
             continue
         seen.add(id(e))
